@@ -4,6 +4,7 @@
   are in `ALV.Lemmas.C06*`.
 -/
 import ALV.Lemmas.C06Call
+import ALV.Lemmas.C06Gain
 import ALV.Lemmas.C06Algebra
 import ALV.Common.Audit
 
@@ -29,14 +30,8 @@ theorem tv_eq_spec (b as : List (Coef K)) (a0 zero : K) (mem xs : List K)
     (hmem : mem.length = as.length)
     (hnz : ¬ ((∀ c ∈ b, c = Coef.const 0) ∧ (∀ c ∈ as, c = Coef.const 0))) :
     (evalTV (compileTV b (Coef.const a0 :: as) zero) mem zero (itsOf b as) xs).1
-      = tvspec b as (Coef.const a0) zero 0 mem [] xs := by
-  rw [compileTV_loop b as a0 zero hnz, itsOf_eq]
-  simp only [evalTV]
-  rw [runLoopTV_eq_tvrun b as a0 _ (applyGain_compile a0) xs 0 0 0 mem
-    (List.replicate (b.length - 1) zero) hmem (by simp)]
-  have h2 := tvrun_eq_tvspec b as (Coef.const a0) zero xs 0 mem [] (by omega)
-  rw [takeP_nil, ← hmem, List.take_length] at h2
-  exact h2
+      = tvspec b as (Coef.const a0) zero 0 mem [] xs :=
+  evalTV_eq_tvspec b as a0 zero mem xs hmem hnz
 
 /-- **C06.1'** (`tv_satisfies_property`): the outputs of the generated loop satisfy the sentence of
 the property, literally: they end when the input or any coefficient stream ends, and for every
@@ -233,6 +228,62 @@ theorem gain_path_property (b as : List (Coef K)) (gs : List K) (zero : K) (mem 
   have := hg n hlen
   simpa [Coef.val, Coef.get?, List.getD_eq_getElem?_getD] using this
 
+/-- **C06.5''** (`gain_path_dict`): the rewriting as the code does it on the `OrderedDict`s —
+`inv_gain = 1 / den[0]; den[0] = 0` (deletes the entry) `; den *= inv_gain.copy()` (`Poly.__mul__`
+by a one-term polynomial: double loop, thub, accumulation, compaction) `; den[0] = 1` (re-inserted
+at the end) `; self.numpoly * inv_gain` — yields, as dense coefficient lists, exactly the lists of
+`gain_path`, for every normalised filter object (powers ascending, denominator starting at delay
+0 with the Stream gain, no stored constant zero). -/
+theorem gain_path_dict (num rest : Terms (Coef K)) (gs : List K)
+    (hnum : List.Pairwise (fun x y : Int × Coef K => x.1 < y.1) num)
+    (hden : List.Pairwise (fun x y : Int × Coef K => x.1 < y.1) (((0 : Int), Coef.strm gs) :: rest))
+    (hnz : ∀ kv ∈ num ++ rest, kv.2 ≠ Coef.const 0) :
+    dense (gainPath num (((0 : Int), Coef.strm gs) :: rest)).1
+        = (dense num).map (mulPresent (Coef.strm (gs.map (1 / ·))))
+    ∧ dense (gainPath num (((0 : Int), Coef.strm gs) :: rest)).2
+        = Coef.const 1 :: (dense (((0 : Int), Coef.strm gs) :: rest)).tail.map
+            (mulPresent (Coef.strm (gs.map (1 / ·)))) :=
+  gainPath_dense num rest gs hnum hden hnz
+
+/-! ### C06.7 the whole call on a filter object -/
+
+/-- **C06.7a** (`call_eq_spec`): `LinearFilter.__call__` on a causal filter object whose gain is a
+constant `g ≠ 0` and which is not all-zero, any kind of memory: causality test, gain test, dense
+lists, memory normalisation, generated source, one iterator per Stream coefficient, its execution
+— the result is the time-varying difference equation on the dense coefficient lists. -/
+theorem call_eq_spec (num den : Terms (Coef K)) (mem : Mem K) (zero : K) (xs : List K) (g : K)
+    (hc : ∀ kv ∈ num ++ den, 0 ≤ kv.1) (h0 : coefAt den 0 = Coef.const g) (hg : g ≠ 0)
+    (hnz : ¬ ((∀ c ∈ dense num, c = Coef.const 0) ∧ (∀ c ∈ (dense den).tail, c = Coef.const 0))) :
+    (callTV num den mem zero xs).map Prod.fst
+      = .ok (tvspec (dense num) (dense den).tail (Coef.const g) zero 0
+              (memoryOf zero (dense den).tail.length mem) [] xs) :=
+  callTV_const_eq num den mem zero xs g hc h0 hg hnz
+
+/-- **C06.7b** (`call_gain_eq_spec`): the same with a Stream gain: gain test, rewriting on the
+dictionaries, `ZFilter(…)` constructor, second `__call__`, generated source with every coefficient
+a Stream — the result is the difference equation whose gain at output `n` is `a0[n]`, on the
+ORIGINAL coefficient lists; it ends with the shortest of input, coefficient streams and gain stream. -/
+theorem call_gain_eq_spec (num rest : Terms (Coef K)) (gs : List K) (mem : Mem K) (zero : K) (xs : List K)
+    (hnum : List.Pairwise (fun x y : Int × Coef K => x.1 < y.1) num)
+    (hden : List.Pairwise (fun x y : Int × Coef K => x.1 < y.1) (((0 : Int), Coef.strm gs) :: rest))
+    (hstored : ∀ kv ∈ num ++ rest, kv.2 ≠ Coef.const 0) (hcn : ∀ kv ∈ num, 0 ≤ kv.1)
+    (hnz : ¬ ((∀ c ∈ dense num, c = Coef.const 0)
+      ∧ (∀ c ∈ (dense (((0 : Int), Coef.strm gs) :: rest)).tail, c = Coef.const 0))) :
+    (callTV num (((0 : Int), Coef.strm gs) :: rest) mem zero xs).map Prod.fst
+      = .ok (tvspec (dense num) (dense (((0 : Int), Coef.strm gs) :: rest)).tail (Coef.strm gs) zero 0
+              (memoryOf zero (dense (((0 : Int), Coef.strm gs) :: rest)).tail.length mem) [] xs) :=
+  callTV_gain_eq num rest gs mem zero xs hnum hden hstored hcn hnz
+
+/-- a filter with any negative power refuses to run, Stream coefficients or not (C04.4) -/
+theorem noncausal (num den : Terms (Coef K)) (mem : Mem K) (zero : K) (xs : List K)
+    (h : ∃ kv ∈ num ++ den, kv.1 < 0) :
+    callTV num den mem zero xs = .error .valueError := by
+  have : checkCausal num den = false := by
+    simp only [checkCausal, Bool.not_eq_false', List.any_eq_true]
+    obtain ⟨kv, hm, hlt⟩ := h
+    exact ⟨kv, hm, by simpa using hlt⟩
+  simp [callTV, this]
+
 /-! ### C06.6 filter arithmetic acts on coefficient sequences element by element -/
 
 /-- **C06.6a** a product / sum / difference / quotient of two coefficients has an `n`-th value
@@ -352,21 +403,21 @@ example := poly_mul_elementwise 1 [((0 : Int), Coef.const (1 : ℚ)), (1, Coef.s
 example : endLen 10 [Coef.const (1 : Rat), Coef.strm [1, 2, 3], Coef.strm [1, 2, 3, 4, 5]] = 3 := by
   decide +kernel
 
-/-! ### PENDING (full statements kept as definitions, not theorems) -/
+/-- C06.7: `(1 + z^-1) / (Stream(2,3,4,5,6) + Stream(1,1,1,1,1) z^-1)` as a filter object -/
+example : (callTV [((0 : Int), Coef.const (1 : Rat)), (1, Coef.const 1)]
+      [(0, Coef.strm [2, 3, 4, 5, 6]), (1, Coef.strm [1, 1, 1, 1, 1])] Mem.none 0 [1, 1, 1, 1]).map Prod.fst
+    = .ok [1/2, 1/2, 3/8, 13/40] := by decide +kernel
+example := call_gain_eq_spec [((0 : Int), Coef.const (1 : ℚ)), (1, Coef.const 1)]
+  [(1, Coef.strm [1, 1, 1, 1, 1])] [2, 3, 4, 5, 6] Mem.none 0 [1, 1, 1, 1]
+  (by simp) (by simp) (by simp) (by simp)
+  (by intro h; have := h.1 (Coef.const 1) (by simp [dense, order, coefAt]; exact ⟨0, by omega, by simp⟩); simp at this)
+example := call_eq_spec [((0 : Int), Coef.const (1 : ℚ)), (1, Coef.strm [1, 2, 3])] [(0, Coef.const 2)]
+  Mem.none 0 [1, 1, 1, 1] 2 (by simp) (by simp [coefAt]) (by norm_num)
+  (by intro h; have := h.1 (Coef.const 1) (by simp [dense, order, coefAt]; exact ⟨0, by omega, by simp⟩); simp at this)
+example : callTV [((-1 : Int), Coef.strm [(1 : Rat)])] [(0, Coef.const 1)] Mem.none 0 [1]
+    = .error .valueError := noncausal _ _ _ _ _ ⟨((-1 : Int), Coef.strm [1]), by simp, by simp⟩
 
--- PENDING
-/-- the dictionary form of the variable-gain rewriting (`den[0] = 0; den *= inv_gain.copy();
-den[0] = 1; numpoly * inv_gain` on the `OrderedDict`s) yields, as dense lists, exactly the
-coefficient lists of `gain_path` — carried by the tie (entry "call", gain a Stream) -/
-def gainPath_dense_PENDING : Prop :=
-  ∀ (num den : Terms (Coef K)) (gs : List K),
-    List.Pairwise (fun x y : Int × Coef K => x.1 < y.1) num →
-    List.Pairwise (fun x y : Int × Coef K => x.1 < y.1) den →
-    (∀ kv ∈ num ++ den, 0 ≤ kv.1 ∧ kv.2 ≠ Coef.const 0) →
-    coefAt den 0 = Coef.strm gs →
-    dense (gainPath num den).1 = (dense num).map (mulPresent (Coef.strm (gs.map (1 / ·))))
-    ∧ dense (gainPath num den).2
-        = Coef.const 1 :: (dense den).tail.map (mulPresent (Coef.strm (gs.map (1 / ·))))
+/-! ### PENDING (full statements kept as definitions, not theorems) -/
 
 -- PENDING
 /-- end to end from the constructor arguments (C04.10 for Stream coefficients): the sorted
